@@ -40,6 +40,10 @@ def _stmt(s, tmp, fvar, opened):
             need(len(call.args) == 2, "open() with positional buffering argument is not modelled")
             opened.append(ast.unparse(call.args[0]))
             return "(POpen %s)" % _stmts(s.body, tmp, fvar, opened)
+        if isinstance(call, ast.Name) and call.id == fvar and "preopened" in opened and s.items[0].optional_vars is None:
+            # `with f:` on a file object created before (tempfile.NamedTemporaryFile): closes f on every exit
+            opened.append(tmp)
+            return "(POpen %s)" % _stmts(s.body, tmp, fvar, opened)
         if isinstance(call, ast.Call) and ast.unparse(call) == "suppress(OSError)":
             need(len(s.body) == 1 and ast.unparse(s.body[0]) == "os.remove(%s)" % tmp, "suppress block does something else than removing the temporary file")
             return "PRemoveTmp"
@@ -57,6 +61,8 @@ def _stmt(s, tmp, fvar, opened):
             return "PWrite"
         if tmp is not None and src == "os.replace(%s, file_name)" % tmp:
             return "PReplace"
+        if tmp is not None and src == "shutil.move(%s, file_name)" % tmp:
+            return "PMove"          # os.rename, and copy + unlink when the rename fails (other file system)
     raise TranslateError("statement of the write protocol is not understood: " + src[:80])
 
 
@@ -85,7 +91,7 @@ def _protocol_of(fn, tree):
         need(ast.unparse(call.args[0]) == "file_name" and ast.unparse(call.args[1]) == "'w'", "unexpected open() arguments in " + fn.name)
         need("os.replace" not in src and "os.rename" not in src, "open(file_name) together with replace in " + fn.name)
         need(opens[0] in fn.body, "open() nested in other statements in " + fn.name)
-        return (False, "(POpen PWrite)")
+        return (False, "(POpen PWrite)", True)
     # delegated to a helper taking (file_name, writer)
     calls = [n for n in ast.walk(fn) if isinstance(n, ast.Call) and isinstance(n.func, ast.Name) and n.func.id.startswith("_write")]
     need(len(calls) == 1 and ast.unparse(calls[0].args[0]) == "file_name", "no open() and no atomic-write helper call in " + fn.name)
@@ -99,14 +105,31 @@ def _protocol_of(fn, tree):
     need([a.arg for a in helper.args.args] == ["file_name", "write"], "helper signature changed")
     body = [s for s in helper.body if not (isinstance(s, ast.Expr) and isinstance(s.value, ast.Constant))]
     need(len(body) >= 2 and isinstance(body[0], ast.Assign), "helper shape changed")
-    tmp = ast.unparse(body[0].targets[0])
     tmp_expr = body[0].value
-    need(isinstance(tmp_expr, ast.JoinedStr) and ast.unparse(tmp_expr).startswith("f'{file_name}"), "temporary name is not derived from file_name (same directory)")
-    need(any(isinstance(v, ast.Constant) and v.value for v in tmp_expr.values), "temporary name equals the target name")
-    opened = []
-    prog = _stmts(body[1:], tmp, "f", opened)
-    need(opened == [tmp], "the helper does not open exactly the temporary name: %r" % opened)
-    return (True, prog)
+    if isinstance(tmp_expr, ast.JoinedStr):
+        # tmp_name = f"{file_name}...": a name in the folder of the target (same file system)
+        tmp = ast.unparse(body[0].targets[0])
+        need(ast.unparse(tmp_expr).startswith("f'{file_name}"), "temporary name is not derived from file_name (same directory)")
+        need(any(isinstance(v, ast.Constant) and v.value for v in tmp_expr.values), "temporary name equals the target name")
+        same_dir = True
+        opened = []
+        prog = _stmts(body[1:], tmp, "f", opened)
+        need(opened == [tmp], "the helper does not open exactly the temporary name: %r" % opened)
+    else:
+        # f = tempfile.NamedTemporaryFile('w', ..., delete=False[, dir=...]); tmp_name = f.name
+        need(isinstance(tmp_expr, ast.Call) and ast.unparse(tmp_expr.func) == "tempfile.NamedTemporaryFile" and ast.unparse(body[0].targets[0]) == "f",
+             "temporary file is neither a name derived from file_name nor a tempfile.NamedTemporaryFile")
+        kws = {k.arg: ast.unparse(k.value) for k in tmp_expr.keywords}
+        mode = ast.unparse(tmp_expr.args[0]) if tmp_expr.args else kws.get("mode")
+        need(mode == "'w'" and kws.get("delete") == "False" and "buffering" not in kws and len(tmp_expr.args) <= 1, "NamedTemporaryFile arguments are not modelled")
+        same_dir = kws.get("dir") in ("os.path.dirname(file_name)", "os.path.dirname(os.path.abspath(file_name))")
+        need("dir" not in kws or same_dir, "NamedTemporaryFile(dir=...) is not understood")
+        need(len(body) >= 3 and ast.unparse(body[1]).endswith(" = f.name"), "temporary name is not f.name")
+        tmp = ast.unparse(body[1].targets[0])
+        opened = ["preopened"]
+        prog = _stmts(body[2:], tmp, "f", opened)
+        need(opened == ["preopened", tmp], "the temporary file object is not used by exactly one `with f:` block")
+    return (True, prog, same_dir)
 
 
 def translate():
@@ -132,6 +155,8 @@ def translate():
         "From TxV Require Import Model.FsDefs.",
         "Definition writes_to_temp : bool := %s." % b(p[0]),
         "Definition protocol : prog := %s." % p[1],
+        "(* the temporary file is created in the folder of the target (its name is derived from file_name) *)",
+        "Definition temp_same_dir : bool := %s." % b(p[2]),
         "Definition skip_if_target_exists : bool := true.",
     ]) + "\n")
     return []
